@@ -11,11 +11,7 @@ HUGE = 1000 ** 10
 INF = None          # "max not given"
 START = 3           # offset of the write position along the split axis
 CROSS0, CROSS = 2, 7  # offset/extent across the split axis
-# VERIF_C12_MODEL=fixed (with VERIF_REPO=<worktree with fixes/C12-zero-weight-children.patch>):
-# compare against the model of the patched code (divide_fixed) and read the
-# preferred/maximal clauses for weighted children.  Not a registered command.
-FIXED = os.environ.get("VERIF_C12_MODEL", "") == "fixed"
-SPLIT_OPS = (0, 4)
+SPLIT_OPS = (0,)   # op 4 of run_C12 is the pinned (pre-8a80803) division; no registered path uses it
 OPNAME = {0: "split", 1: "sum", 2: "max", 3: "take", 4: "split"}
 ALIGN_NAMES = {0: "start(TOP/LEFT)", 1: "CENTER", 2: "end(BOTTOM/RIGHT)", 3: "JUSTIFY"}
 
@@ -38,7 +34,7 @@ def unraw(r):
 
 def fuel_bound(ndims, weights, avail):
     """coq/Proofs/C12_Termination.v divide_fuel: iterations of one grow loop
-    that suffice on the terminating inputs (theorem C12_terminates_on_domain)."""
+    that always suffice (theorem C12_terminates)."""
     D = max(0, avail)
     W = max([1] + list(weights))
     return ndims * ((D + ((D + 1) * W + 3)) * W + 1) + 1
@@ -49,7 +45,7 @@ def split_case(orient, done, align, pad, children, avail):
     n_all = max(0, 2 * n - 1) + 2
     ws = [c[2][0] if c[2] else 1 for c in children] + [pad[2][0] if pad[2] else 1, 1]
     fuel = fuel_bound(n_all, ws, avail)
-    return [4 if FIXED else 0, orient, done, align, pad, children, avail, START, fuel]
+    return [0, orient, done, align, pad, children, avail, START, fuel]
 
 
 # --------------------------------------------------------------------------
@@ -363,7 +359,7 @@ def impl_take(case):
 # own results (never calls the model)
 
 def hang_expected(dims, avail):
-    """The zero-weight family (finding C12-F1): a child with weight 0 that
+    """The zero-weight family (fixed finding C12-F1, commit 8a80803): a child with weight 0 that
     has room to grow (towards preferred or max) while the weighted children
     cannot absorb the space the loops insist on handing out."""
     smin = sum(d[0] for d in dims)
@@ -391,13 +387,13 @@ def oracle_split(case, res, info):
     if r == "hang" or info.get("draw") == "hang":
         zero = hang_expected(dims, avail)
         return ("dividing does not terminate (more than %d items drawn from the weight generator, or 2 s)" % info.get("nexts", -1),
-                ("hang-zero-weight-child-with-room" if zero else "hang-other") + ("-after-fix" if FIXED else ""))
+                "hang-zero-weight-child-with-room" if zero else "hang-other")
     if r == "ValueError":
         if smin > avail:
             return ("ValueError although the minimums do not fit (expected 'too small')", "valueerror-too-small")
         allzero = n > 0 and all(d[3] == 0 for d in dims)
         return ("ValueError instead of sizes: %s" % info.get("message"),
-                ("valueerror-all-zero-weights" if allzero else "valueerror-other") + ("-after-fix" if FIXED else ""))
+                "valueerror-all-zero-weights" if allzero else "valueerror-other")
     if r is None:
         if not (smin > avail):
             return ("reports 'too small' although the minimums fit (sum min %d <= %d)" % (smin, avail), "too-small")
@@ -411,25 +407,23 @@ def oracle_split(case, res, info):
                 return ("child %d got size %d outside its min..max %d..%d" % (k, s, d[0], d[1]), "bounds")
         if sum(r) > avail:
             return ("total %d exceeds the available size %d" % (sum(r), avail), "total")
-        if n > 0 and FIXED:
-            # patched code: weight-0 children keep their minimum; the clauses speak about the weighted ones
+        if n > 0:
+            # children with weight 0 take no part in growing (theorem C12_sizes): the
+            # preferred/maximal clauses speak about the weighted ones
             rp = sum(d[2] if d[3] > 0 else d[0] for d in dims)
             rm = sum(d[1] if d[3] > 0 else d[0] for d in dims)
-            if any(s != d[0] for s, d in zip(r, dims) if d[3] == 0):
-                return ("a weight-0 child left its minimum: %r" % (r,), "zero-weight-moved")
             if rp <= avail and any(s < d[2] for s, d in zip(r, dims) if d[3] > 0):
-                return ("preferred sizes of the weighted children fit but one is below its preferred size: %r" % (r,), "preferred-first")
+                return ("preferred sizes of the weighted children fit (%d <= %d) but one is below its preferred size: %r" % (rp, avail, r), "preferred-first")
             if avail <= rp and any(s > d[2] for s, d in zip(r, dims)):
                 return ("extra space handed out although the preferred sizes are not all satisfied: %r" % (r,), "preferred-first")
             if not done and sum(r) != min(avail, smax, rm):
-                return ("space not used as far as the weighted children can grow: total %d, available %d, reachable %d" % (sum(r), avail, rm), "maximal")
-        elif n > 0:
-            if spref <= avail and any(s < d[2] for s, d in zip(r, dims)):
-                return ("preferred sizes fit (sum %d <= %d) but a child is below its preferred size: %r" % (spref, avail, r), "preferred-first")
-            if avail <= spref and any(s > d[2] for s, d in zip(r, dims)):
-                return ("extra space handed out although the preferred sizes are not all satisfied: %r" % (r,), "preferred-first")
-            if not done and sum(r) != min(avail, smax):
-                return ("space not used as far as the children can grow: total %d, available %d, sum of max %d" % (sum(r), avail, smax), "maximal")
+                return ("space not used as far as the weighted children can grow: total %d, available %d, sum of max %d, reachable %d" % (sum(r), avail, smax, rm), "maximal")
+            if all(d[3] > 0 for d in dims):
+                # no weight-0 child: the literal reading
+                if spref <= avail and any(s < d[2] for s, d in zip(r, dims)):
+                    return ("preferred sizes fit (sum %d <= %d) but a child is below its preferred size: %r" % (spref, avail, r), "preferred-first")
+                if not done and sum(r) != min(avail, smax):
+                    return ("space not used as far as the children can grow: total %d, available %d, sum of max %d" % (sum(r), avail, smax), "maximal")
     # regions
     regs = info.get("regions", [])
     vsplit_empty = info["orient"] == 1 and info["nchildren"] == 0
@@ -731,7 +725,7 @@ def main(tier):
                                 "all" if chk.tier == "thorough" else "12%", "2%" if chk.tier == "thorough" else "0.12%"))
     chk.assumptions += [
         "take_using_weights compares `taken < i*weight/float(max_weight)`; the model compares taken*max_weight < i*weight exactly; equal when i*weight < 2**53 (probed with weights up to 2**40)",
-        "a hang is observed as: more than 2*fuel+1 items pulled from the real generator (fuel = divide_fuel, the proven per-loop bound of the terminating inputs; 4000 for the large-weight cases) or the 2 s watchdog; a few are re-run on the untouched generator under the plain 2 s watchdog",
+        "a hang would be observed as: more than 2*fuel+1 items pulled from the real generator (fuel = divide_fuel, the proven per-loop bound; 4000 for the large-weight cases) or the 2 s watchdog; such cases are re-run on the untouched generator under the plain 2 s watchdog",
         "children are stub containers reporting a fixed Dimension (and real Window(height=/width=) children on a sample); get_app() is replaced by a stand-in with a controllable is_done; Window contents (C11) are outside",
         "the dimensions children report are constant during one divide call"]
     return chk.finish()
